@@ -1,9 +1,10 @@
 (* Corr/C07Run.v — correspondence evaluator for C07: replays on the RefLoop model the event
    sequences the harness sent to the real session.refLoop and compares, after every event, the
    removes the real loop issued (vstor Remove log, in order) and its fileRef map (read through the
-   session's own fileRefCh) with the model's output and state.  Depends on the model and on
-   Gen/InstRefLoop only. *)
-From GL Require Import Conc.RefLoop Gen.Consts Gen.InstRefLoop.
+   session's own fileRefCh) with the model's output and state; and replays on the VersionLayer model
+   the operations the harness performed on the real version layer and compares the events it sent.
+   Depends on the two model files and on Gen/InstRefLoop only. *)
+From GL Require Import Conc.RefLoop Conc.VersionLayer Gen.Consts Gen.InstRefLoop.
 From Coq Require Import NArith List Bool.
 Import ListNotations.
 Open Scope N_scope.
@@ -26,9 +27,39 @@ Inductive c07case :=
 | KPanic (exp : list N) (steps : list c07step) (last : event) (kind : N)
     (* the real loop panicked on [last]: 0 negative ref, 1 duplicate reference request,
        2 invalid release request *)
-| KProto (evs : list event).
+| KProto (evs : list event)
     (* an event sequence the REAL version layer (session.commit/setVersion, version.incref/releaseNB,
        recorded instead of consumed by the loop) sent: it must satisfy the protocol env_ok *)
+| KVL (disc : bool) (o : vopen) (ops : list vop) (obs : list event).
+    (* one session of the REAL version layer: how it was opened (created, or recovered - the manifest
+       summarised as one record listing the recovered version), the operations the harness performed
+       on it (session.version / version.release by version id / session.commit with the record's
+       tables, the trivial flag and how it ended) and every event it sent up to its close.  The model
+       of the version layer (Conc/VersionLayer.v) must send exactly the same events; disc is what the
+       harness' mirror said about the API discipline (must equal vl_disciplined); and the observed
+       events must satisfy env_ok - for disciplined histories that is theorem
+       C07_session_emits_env_ok evaluated on the implementation's own output *)
+
+(* short constructors for the case files *)
+Definition T (n a b : N) : tbl := {| t_num := n; t_min := a; t_max := b |}.
+Definition R (a : list (N * tbl)) (d : list (N * N)) : srec := {| r_added := a; r_deleted := d |}.
+
+Definition event_eqb (a b : event) : bool :=
+  match a, b with
+  | ERef v f, ERef v' f' => (v =? v') && leqb f f'
+  | ERel v f, ERel v' f' => (v =? v') && leqb f f'
+  | EDelta v x y, EDelta v' x' y' => (v =? v') && leqb x x' && leqb y y'
+  | EAbandon v, EAbandon v' => v =? v'
+  | ETick, ETick => true
+  | _, _ => false
+  end.
+
+Fixpoint events_eqb (a b : list event) : bool :=
+  match a, b with
+  | [], [] => true
+  | x :: a', y :: b' => event_eqb x y && events_eqb a' b'
+  | _, _ => false
+  end.
 
 Definition digest (m : list (N * N)) : N * N * N :=
   fold_left (fun '(n, s, w) '(f, c) => (n + 1, s + c, w + f * c)) m (0, 0, 0).
@@ -65,6 +96,13 @@ Definition run_case (c : c07case) : bool :=
       | None => false
       end
   | KProto evs => env_ok (map (fun e => (e, [])) evs)
+  | KVL disc o ops obs =>
+      match vl_run o ops with
+      | VOk (_, evs) => events_eqb evs obs
+      | VPanic _ => false
+      end
+      && Bool.eqb (vl_disciplined o ops) disc
+      && (negb disc || env_ok (map (fun e => (e, [])) obs))
   end.
 
 Fixpoint mism_from {A} (f : A -> bool) (i : N) (l : list A) : list N :=
